@@ -1,5 +1,5 @@
 """C20: degree helpers: angle_to_radians exact-form / NaN domain for all integral carriers; integral and fixed_t carriers of
-the same degree value give the same sin_angle/cos_angle/tan_angle (decided). Accuracy bounds inherit C09/C10 (not decided);
+the same degree value give the same sin_angle/cos_angle/tan_angle (decided). The accuracy of the 721 integer degree values is decided by constant propagation;
 the float carrier's agreement is not decided."""
 from fractions import Fraction
 from . import common, lib, realmath as R
@@ -70,6 +70,8 @@ def run(tier, seed):
                     return o != ("ret", ex)
                 lib.check_regions(V, r, regs, bad, "angle_to_radians<%s>(d) == floor(d*phi/180) for 0 <= d <= 360, NaN otherwise" % t,
                                   site="angle_to_radians")
+            if cfg == configs[0] or tier != "quick":
+                info[cfg]["degree_values_decided"] = degree_accuracy(V, ctx, cfg, phi)
             # carriers agree: integral T versus fixed_t carrying the same degree value
             for f in ("sin_angle", "cos_angle", "tan_angle"):
                 ref = ctx.run("w_%s_fxi" % f, [("i", -360, 360)])
@@ -87,6 +89,53 @@ def run(tier, seed):
             "form q satisfies -179 <= 180*q - phi.v*d <= 0, i.e. q == floor(d*phi.v/180); every other value of the type returns NaN; with "
             "|phi.v - 65536*pi| bounded by the interval oracle this is within 1 + 2*|phi.v - 65536*pi| < 2 ulp of d*pi/180. "
             "sin_angle/cos_angle/tan_angle: for every integral carrier and |d| <= 360 the inlined program equals the program that passes the "
-            "same d as a fixed_t (summary equivalence), so integer and fixed_t arguments give the same result. NOT DECIDED: the widened "
-            "accuracy bounds (inherit C09/C10) and the float carrier's agreement ('the float holds an integer' is not a box).")
+            "same d as a fixed_t (summary equivalence), so integer and fixed_t arguments give the same result. Accuracy: the 721 integer "
+            "degrees (int32 carrier; the other integral carriers and fixed_t are equal to it) form a finite set and are decided one by one by "
+            "constant propagation against the interval oracle: sin_angle/cos_angle within the C09 bound + 3 ulp, tan_angle within "
+            "5 ulp (1+tan^2) (odd multiples of 90 degrees excluded: pole). NOT DECIDED: the float carrier's agreement ('the float holds an "
+            "integer' is not a box).")
     return V.finish("other", expl, "./fx check C20 --tier %s" % tier, extra={"configs": configs, "constants": info})
+
+
+def degree_accuracy(V, ctx, cfg, phi):
+    """sin_angle / cos_angle / tan_angle for the 721 integers |d| <= 360: a finite set, decided by constant propagation (abstract
+    interpretation on singleton boxes) against the interval oracle; bounds: C09 + 3 ulp, C10 with constant 5 ulp."""
+    from fxai import pipeline as P
+    pil, pih = R.to_frac(R.pi())
+    n = 0
+    for f in ("sin_angle", "cos_angle", "tan_angle"):
+        r = ctx.run("w_%s_i32" % f, [("i", -360, 360)])
+        an = r.an
+        for d in range(-360, 361):
+            if f == "tan_angle" and d % 180 == 90:
+                continue                       # odd multiples of 90 degrees: the pole of tan, no bound to meet
+            rs = an.run(P.init_state(an.fn, [("i", d, d)]))
+            vals = set(lib.ret_rng(q) for q in rs.paths)
+            ok = False
+            got = None
+            if len(vals) == 1 and not rs.alarms:
+                lo, hi = next(iter(vals))
+                if lo == hi:
+                    got = lo
+                    x = R.div_int(R.scale_int(R.pi(), d), 180)
+                    s, c = R.sin_cos(x)
+                    if f == "tan_angle":
+                        t = R.div(s, c)
+                        tl, th = R.to_frac(t)
+                        bd = 5 * (1 + min(tl * tl, th * th) if tl * th > 0 else 1)
+                    else:
+                        tl, th = R.to_frac(s if f == "sin_angle" else c)
+                        # r = |asin(value)|: distance of d degrees (sin) / d+90 degrees (cos) from the nearest multiple of 180
+                        dd = d if f == "sin_angle" else d + 90
+                        k = dd % 180
+                        rdeg = min(k, 180 - k)
+                        rr = Fraction(rdeg) * pih / 180
+                        bd = 4 + 3 + 65536 * rr ** 9 / 362880
+                    ok = 65536 * tl - bd <= got <= 65536 * th + bd
+            V.oblige(ok)
+            n += 1
+            if not ok:
+                out = r.conc((d,))
+                V.violation("%s(d) accuracy for integer degrees" % f, f, "%s(%d) [%s] = %s: outside the widened bound" % (f, d, cfg, lib.out_str(out)),
+                            lib.rp(r, (d,), "degree accuracy"))
+    return n
